@@ -896,4 +896,235 @@ example : ∃ t t', writeConf exConf = .ok t ∧ reverseXyz t = .ok t' ∧
   rw [h1] at h4
   exact ⟨_, t', writeConf_eq _ exConf_ok, h1, h3, by rw [Except.ok.inj h4]; exact h5⟩
 
+/-! ### GROMACS .g96 -/
+
+/-- a number fits its 15-character column (`|x| < 10^5`, negative: `|x| < 10^4`) -/
+def Fit (d : Dec) : Prop := (fmtCore 9 d).length ≤ 15
+def Fit3 (v : V3) : Prop := Fit v.x ∧ Fit v.y ∧ Fit v.z
+/-- a box field that keeps a leading blank (`|x| < 10^4`, negative: `|x| < 10^3`) -/
+def FitBox (d : Dec) : Prop := (fmtCore 9 d).length ≤ 14
+
+theorem mem_strip_of_noWs {c : Char} {l : List Char} (hc : c ∈ l) (hw : isWs c = false) : c ∈ strip l := by
+  have hd : ∀ (l : List Char), c ∈ l → c ∈ l.dropWhile isWs := by
+    intro l
+    induction l with
+    | nil => intro h; exact h
+    | cons a t ih =>
+      intro h
+      by_cases ha : isWs a = true
+      · rw [List.dropWhile_cons_of_pos ha]
+        rcases List.mem_cons.1 h with e | h
+        · subst e; rw [hw] at ha; cases ha
+        · exact ih h
+      · rw [List.dropWhile_cons_of_neg ha]; exact h
+  unfold strip lstrip rstrip
+  apply hd
+  rw [List.mem_reverse]
+  apply hd
+  rw [List.mem_reverse]
+  exact hc
+
+theorem not_kw_of_dot {s : List Char} (h : '.' ∈ s) : s ≠ kwEND ∧ keyOf s = none := by
+  have hne : ∀ k : List Char, '.' ∉ k → s ≠ k := fun k hk e => hk (e ▸ h)
+  refine ⟨hne _ (by decide), ?_⟩
+  unfold keyOf
+  rw [if_neg (hne _ (by decide)), if_neg (hne _ (by decide)), if_neg (hne _ (by decide)),
+    if_neg (hne _ (by decide)), if_neg (hne _ (by decide)), if_neg (hne _ (by decide))]
+
+theorem dot_mem_fmtFixed (w p : Nat) (d : Dec) : '.' ∈ fmtFixed w p d := by
+  simp [fmtFixed, fmtCore]
+
+theorem dataLine_of_dot {l : List Char} (h : '.' ∈ l) : strip l ≠ kwEND ∧ keyOf (strip l) = none :=
+  not_kw_of_dot (mem_strip_of_noWs h (by decide))
+
+/-- a line that is neither `END` nor a section keyword after stripping -/
+def DataLine (l : Line) : Prop := strip l ≠ kwEND ∧ keyOf (strip l) = none
+
+def pushAll (s : Sec) (ls : List Line) (r : G96Raw) : G96Raw := ls.foldr (fun l r => r.push s l) r
+
+theorem collect_data (s : Sec) (ds rest : List Line) (r0 : G96Raw) (h : ∀ l ∈ ds, DataLine l)
+    (hr : g96Collect (some s) rest = .ok r0) :
+    g96Collect (some s) (ds ++ rest) = .ok (pushAll s (ds.map rstrip) r0) := by
+  induction ds with
+  | nil => simpa [pushAll] using hr
+  | cons l t ih =>
+    have hl := h l (by simp)
+    have := ih (fun x hx => h x (by simp [hx]))
+    simp only [List.cons_append, g96Collect, if_neg hl.1, hl.2, this]
+    simp [pushAll]
+
+theorem collect_end (sec : Option Sec) (rest : List Line) :
+    g96Collect sec (kwEND :: rest) = g96Collect sec rest := by
+  have : strip kwEND = kwEND := by decide
+  simp [g96Collect, this]
+
+theorem collect_kw (sec : Option Sec) (kw : Line) (k : Sec) (rest : List Line)
+    (h1 : strip kw ≠ kwEND) (h2 : keyOf (strip kw) = some k) :
+    g96Collect sec (kw :: rest) = g96Collect (some k) rest := by
+  simp [g96Collect, if_neg h1, h2]
+
+theorem pushAll_title (ls : List Line) (r : G96Raw) : pushAll .title ls r = { r with title := ls ++ r.title } := by
+  induction ls with
+  | nil => rfl
+  | cons l t ih => simp only [pushAll, List.foldr_cons] at ih ⊢; rw [ih]; rfl
+
+theorem pushAll_position (ls : List Line) (r : G96Raw) : pushAll .position ls r = { r with pos := ls ++ r.pos } := by
+  induction ls with
+  | nil => rfl
+  | cons l t ih => simp only [pushAll, List.foldr_cons] at ih ⊢; rw [ih]; rfl
+
+theorem pushAll_velocity (ls : List Line) (r : G96Raw) : pushAll .velocity ls r = { r with vel := ls ++ r.vel } := by
+  induction ls with
+  | nil => rfl
+  | cons l t ih => simp only [pushAll, List.foldr_cons] at ih ⊢; rw [ih]; rfl
+
+theorem pushAll_box (ls : List Line) (r : G96Raw) : pushAll .box ls r = { r with box := ls ++ r.box } := by
+  induction ls with
+  | nil => rfl
+  | cons l t ih => simp only [pushAll, List.foldr_cons] at ih ⊢; rw [ih]; rfl
+
+/-! rows -/
+
+def rowLs : List Line → List V3 → List Line
+  | t :: ts, v :: vs => g96Row t v :: rowLs ts vs
+  | _, _ => []
+
+theorem g96Rows_eq (ts : List Line) (vs : List V3) (h : vs.length = ts.length) :
+    g96Rows ts vs = .ok (rowLs ts vs) := by
+  induction ts generalizing vs with
+  | nil => simp [g96Rows, rowLs]
+  | cons t ts ih =>
+    cases vs with
+    | nil => simp at h
+    | cons v vs =>
+      simp only [List.length_cons, Nat.add_right_cancel_iff] at h
+      simp [g96Rows, rowLs, ih vs h]
+
+theorem slice_mid (a b c : List Char) (n k : Nat) (ha : a.length = n) (hb : b.length = k) :
+    slice (a ++ (b ++ c)) n k = b := by
+  rw [slice, List.drop_left' ha, List.take_left' hb]
+
+theorem g96Row_rstrip (t : Line) (v : V3) : rstrip (g96Row t v) = g96Row t v := by
+  unfold g96Row
+  conv => lhs; rw [fmtFixed.eq_def 15 9 v.z, ← List.append_assoc]
+  conv => rhs; rw [fmtFixed.eq_def 15 9 v.z, ← List.append_assoc]
+  exact rstrip_append_noWs _ _ (fmtCore_ne_nil 9 v.z) (fmtCore_noWs 9 v.z)
+
+theorem g96Row_data (t : Line) (v : V3) : DataLine (g96Row t v) :=
+  dataLine_of_dot (by simp [g96Row, dot_mem_fmtFixed])
+
+theorem g96Row_parse (t : Line) (v : V3) (ht : t.length = 24) (hv : Fit3 v) :
+    g96Parse3 24 (g96Row t v) = some v ∧ (g96Row t v).take 24 = t := by
+  have hx := fmtFixed_length 15 9 v.x hv.1
+  have hy := fmtFixed_length 15 9 v.y hv.2.1
+  have hz := fmtFixed_length 15 9 v.z hv.2.2
+  constructor
+  · unfold g96Parse3 g96Row
+    have s1 : slice (t ++ fmtFixed 15 9 v.x ++ fmtFixed 15 9 v.y ++ fmtFixed 15 9 v.z) 24 15 = fmtFixed 15 9 v.x := by
+      rw [List.append_assoc, List.append_assoc]; exact slice_mid _ _ _ _ _ ht hx
+    have s2 : slice (t ++ fmtFixed 15 9 v.x ++ fmtFixed 15 9 v.y ++ fmtFixed 15 9 v.z) (24 + 15) 15 = fmtFixed 15 9 v.y := by
+      rw [List.append_assoc]; exact slice_mid _ _ _ _ _ (by simp [ht, hx]) hy
+    have s3 : slice (t ++ fmtFixed 15 9 v.x ++ fmtFixed 15 9 v.y ++ fmtFixed 15 9 v.z) (24 + 30) 15 = fmtFixed 15 9 v.z := by
+      have := slice_mid (t ++ fmtFixed 15 9 v.x ++ fmtFixed 15 9 v.y) (fmtFixed 15 9 v.z) [] (24 + 30) 15
+        (by simp [ht, hx, hy]) hz
+      simpa using this
+    rw [s1, s2, s3, parse_fmt_fixed, parse_fmt_fixed, parse_fmt_fixed]
+  · unfold g96Row
+    rw [List.append_assoc, List.append_assoc]
+    exact List.take_left' ht
+
+theorem rowLs_props (ts : List Line) (vs : List V3) (h : vs.length = ts.length)
+    (ht : ∀ t ∈ ts, t.length = 24) (hv : ∀ v ∈ vs, Fit3 v) :
+    (∀ l ∈ rowLs ts vs, DataLine l) ∧ (rowLs ts vs).map rstrip = rowLs ts vs ∧
+      g96ParseRows 24 (rowLs ts vs) = .ok vs ∧ (rowLs ts vs).map (fun l => l.take 24) = ts := by
+  induction ts generalizing vs with
+  | nil =>
+    cases vs with
+    | nil => simp [rowLs, g96ParseRows]
+    | cons _ _ => simp at h
+  | cons t ts ih =>
+    cases vs with
+    | nil => simp at h
+    | cons v vs =>
+      simp only [List.length_cons, Nat.add_right_cancel_iff] at h
+      obtain ⟨i1, i2, i3, i4⟩ := ih vs h (fun x hx => ht x (by simp [hx])) (fun x hx => hv x (by simp [hx]))
+      have hp := g96Row_parse t v (ht t (by simp)) (hv v (by simp))
+      refine ⟨?_, ?_, ?_, ?_⟩
+      · intro l hl
+        simp only [rowLs, List.mem_cons] at hl
+        rcases hl with e | hl
+        · subst e; exact g96Row_data t v
+        · exact i1 l hl
+      · simp [rowLs, g96Row_rstrip, i2]
+      · simp [rowLs, g96ParseRows, hp.1, i3]
+      · simp [rowLs, hp.2, i4]
+
+/-! the box line -/
+
+theorem head_fmtCat (ds : List Dec) (h : ∀ d ∈ ds, FitBox d) :
+    ∀ c, (fmtCat 15 9 ds).head? = some c → isWs c = true := by
+  intro c hc
+  cases ds with
+  | nil => simp [fmtCat] at hc
+  | cons d t =>
+    have hd : (fmtCore 9 d).length ≤ 14 := h d (by simp)
+    obtain ⟨k, hk⟩ : ∃ k, 15 - (fmtCore 9 d).length = k + 1 := by
+      generalize (fmtCore 9 d).length = n at hd
+      exact ⟨14 - n, by omega⟩
+    simp only [fmtCat, fmtFixed, hk, List.replicate_succ, List.cons_append, List.head?_cons,
+      Option.some.injEq] at hc
+    subst hc; decide
+
+theorem splitWs_fmtCat_tail (ds : List Dec) (h : ∀ d ∈ ds, FitBox d) :
+    splitWs (fmtCat 15 9 ds) = ds.map (fmtCore 9) := by
+  induction ds with
+  | nil => rfl
+  | cons d t ih =>
+    have ht : ∀ x ∈ t, FitBox x := fun x hx => h x (by simp [hx])
+    simp only [fmtCat, fmtFixed, List.append_assoc, List.map_cons]
+    rw [splitWs_blanks, splitWs_token _ _ (fmtCore_ne_nil 9 d) (fmtCore_noWs 9 d) (head_fmtCat t ht), ih ht]
+
+/-- the first field may fill its column, the others need their leading blank -/
+theorem splitWs_fmtCat (ds : List Dec) (h : ∀ d ∈ ds.tail, FitBox d) :
+    splitWs (fmtCat 15 9 ds) = ds.map (fmtCore 9) := by
+  cases ds with
+  | nil => rfl
+  | cons d t =>
+    simp only [List.tail_cons] at h
+    simp only [fmtCat, fmtFixed, List.append_assoc, List.map_cons]
+    rw [splitWs_blanks, splitWs_token _ _ (fmtCore_ne_nil 9 d) (fmtCore_noWs 9 d) (head_fmtCat t h),
+      splitWs_fmtCat_tail t h]
+
+theorem fmtCat_last (ds : List Dec) (h : ds ≠ []) : ∃ a d, fmtCat 15 9 ds = a ++ fmtCore 9 d := by
+  induction ds with
+  | nil => exact absurd rfl h
+  | cons d t ih =>
+    cases t with
+    | nil => exact ⟨List.replicate (15 - (fmtCore 9 d).length) ' ', d, by simp [fmtCat, fmtFixed]⟩
+    | cons e t' =>
+      obtain ⟨a, d', ha⟩ := ih (by simp)
+      exact ⟨fmtFixed 15 9 d ++ a, d', by rw [fmtCat, ha, List.append_assoc]⟩
+
+theorem fmtCat_rstrip (ds : List Dec) (h : ds ≠ []) : rstrip (fmtCat 15 9 ds) = fmtCat 15 9 ds := by
+  obtain ⟨a, d, ha⟩ := fmtCat_last ds h
+  rw [ha]
+  exact rstrip_append_noWs _ _ (fmtCore_ne_nil 9 d) (fmtCore_noWs 9 d)
+
+theorem fmtCat_data (ds : List Dec) (h : ds ≠ []) : DataLine (fmtCat 15 9 ds) := by
+  cases ds with
+  | nil => exact absurd rfl h
+  | cons d t => exact dataLine_of_dot (by simp [fmtCat, dot_mem_fmtFixed])
+
+theorem NoBrk_fmtCat (ds : List Dec) : NoBrk (fmtCat 15 9 ds) := by
+  induction ds with
+  | nil => exact NoBrk_nil
+  | cons d t ih => exact NoBrk_append (NoBrk_fmtFixed _ _ _) ih
+
+theorem g96BoxLine_eq (box : List Dec) (h : box.length = 3 ∨ box.length = 9) :
+    g96BoxLine box = .ok (fmtCat 15 9 box) := by
+  unfold g96BoxLine
+  rcases h with h | h
+  · simp [h]
+  · simp [h, List.take_of_length_le (Nat.le_of_eq h)]
+
 end Infretis.Codec
